@@ -194,6 +194,138 @@ def ops(schema, data, raw_results=None, hinted=()):
     return res
 
 
+# ------------------------------------------------------------------ reader-only fields with defaults (schema evolution)
+def default_value(t, v, named, ns=""):
+    """the harness's own reading of a JSON default under type t (Avro spec: bytes/fixed are ISO-8859-1 text, the default of
+    a union is for its first branch, missing record fields come from the fields' own defaults)"""
+    if isinstance(t, str):
+        if t in sg.PRIMS:
+            if t in ("bytes",):
+                return v.encode("iso-8859-1")
+            if t in ("float", "double"):
+                return float(v)
+            return v
+        q = t if ("." in t or not ns) else ns + "." + t
+        node, nns = named[q]
+        return default_value(node, v, named, nns)
+    if isinstance(t, list):
+        return default_value(t[0], v, named, ns)
+    k = t["type"]
+    if k == "array":
+        return [default_value(t["items"], x, named, ns) for x in v]
+    if k == "map":
+        return {a: default_value(t["values"], x, named, ns) for a, x in v.items()}
+    if k == "fixed":
+        return v.encode("iso-8859-1")
+    if k == "enum":
+        return v
+    if k in ("record", "error"):
+        sp = sg.spec_fullname(ns, t)[0]
+        out = {}
+        for f in t["fields"]:
+            out[f["name"]] = default_value(f["type"], v[f["name"]] if f["name"] in v else f["default"], named, sp)
+        return out
+    return default_value(k, v, named, ns)            # {"type": "bytes"} ...
+
+
+def evolve_case(rng):
+    """writer Doc{id}; reader Doc{id + fields with defaults whose types hold named types BELOW their top level}: in the raw
+    form every named type is defined inline at its first use, in the piecewise form all of them are separate documents"""
+    ns = rng.choice(["", "d", "a.b"])
+    q = (lambda n: ns + "." + n) if ns else (lambda n: n)
+    size = rng.choice([1, 2, 3])
+    txt = lambda k: "".join(rng.choice(["\u00ff", "\u0001", "A", "\u00fe", "\u0080"]) for _ in range(k))
+    sig = {"type": "fixed", "name": q("Sig"), "size": size}
+    tagt = rng.choice(["bytes", "sig"])
+    meta = {"type": "record", "name": q("Meta"), "fields": [
+        {"name": "tag", "type": "bytes" if tagt == "bytes" else q("Sig")},
+        {"name": "n", "type": "double", "default": rng.choice([1, 0, -3])},
+        {"name": "f", "type": ["float", "null"], "default": rng.choice([2, 7])}]}
+    tagv = lambda: txt(rng.choice([0, 1, 3])) if tagt == "bytes" else txt(size)
+    metav = lambda: rng.choice([{"tag": tagv()}, {"tag": tagv(), "n": 5}, {"tag": tagv(), "f": 1, "n": 2}])
+    defs = {"Sig": sig, "Meta": meta}
+    used = set()
+
+    def use(n, inline_ok):
+        """raw form: the definition at the first use, the name afterwards; a bare name is relative to the namespace"""
+        if inline_ok and n not in used:
+            used.add(n)
+            if n == "Meta" and tagt == "sig" and "Sig" not in used:
+                used.add("Sig")
+                m = copy.deepcopy(meta); m["fields"][0]["type"] = copy.deepcopy(sig); return m
+            return copy.deepcopy(defs[n])
+        return rng.choice([q(n), n]) if ns else n
+    kinds = rng.sample(["arr", "map", "union", "nest", "arrmap", "unionmeta", "top"], rng.choice([1, 2, 3, 4]))
+
+    def fields(inline_ok):
+        used.clear()
+        out = [{"name": "id", "type": "int"}]
+        for k in kinds:
+            if k == "arr":
+                out.append({"name": "sigs", "type": {"type": "array", "items": use("Sig", inline_ok)}, "default": dv["arr"]})
+            elif k == "map":
+                out.append({"name": "metas", "type": {"type": "map", "values": use("Meta", inline_ok)}, "default": dv["map"]})
+            elif k == "union":
+                out.append({"name": "u", "type": [use("Sig", inline_ok), "null"], "default": dv["union"]})
+            elif k == "unionmeta":
+                out.append({"name": "um", "type": [use("Meta", inline_ok), "null", "int"], "default": dv["unionmeta"]})
+            elif k == "arrmap":
+                out.append({"name": "am", "type": {"type": "array", "items": {"type": "map", "values": use("Sig", inline_ok)}}, "default": dv["arrmap"]})
+            elif k == "top":
+                out.append({"name": "t", "type": use("Meta", inline_ok), "default": dv["top"]})
+            else:
+                out.append({"name": "nest", "type": {"type": "record", "name": q("Inner"), "fields": [
+                    {"name": "s", "type": use("Sig", inline_ok)}, {"name": "m", "type": use("Meta", inline_ok)},
+                    {"name": "d", "type": "double", "default": 4}]}, "default": dv["nest"]})
+        return out
+    dv = {"arr": [txt(size) for _ in range(rng.choice([0, 1, 2]))], "map": {k: metav() for k in rng.sample(["a", "b"], rng.choice([1, 2]))},
+          "union": txt(size), "unionmeta": metav(), "arrmap": [{"k": txt(size)}], "top": metav(),
+          "nest": rng.choice([{"s": txt(size), "m": metav()}, {"s": txt(size), "m": metav(), "d": 1}])}
+    # the schemagen walkers produce defaults as str; the harness wrote the escapes literally above
+    dv = json.loads(json.dumps(dv).replace("\\\\u", "\\u"))
+    writer = {"type": "record", "name": q("Doc"), "fields": [{"name": "id", "type": "int"}]}
+    raw = {"type": "record", "name": q("Doc"), "fields": fields(True)}
+    parent = {"type": "record", "name": q("Doc"), "fields": fields(False)}
+    pieces = [copy.deepcopy(sig), copy.deepcopy(meta)]
+    named = {q("Sig"): (sig, ""), q("Meta"): (meta, "")}
+    datum = {"id": rng.randrange(-5, 100)}
+    expected = dict(datum)
+    for f in parent["fields"][1:]:
+        expected[f["name"]] = default_value(f["type"], f["default"], named, ns)
+    return dict(writer=writer, raw=raw, pieces=pieces, parent=parent, datum=datum, expected=expected, kinds=kinds)
+
+
+def run_evolve(ctx, rng, n):
+    import fastavro
+    from fastavro.schema import parse_schema
+    for _ in range(n):
+        c = evolve_case(rng)
+        key = json.dumps([c["raw"], c["parent"]], sort_keys=True)
+        ctx.count("corr:three-forms", ("evolve", key))
+        cs = dict(family="reader-only fields with defaults", writer_json=json.dumps(c["writer"]), reader_raw_json=json.dumps(c["raw"]),
+                  pieces_json=json.dumps(c["pieces"]), reader_parent_json=json.dumps(c["parent"]), datum=repr(c["datum"]), kinds=c["kinds"])
+        shared = {}
+        st = outcome(lambda: ([parse_schema(copy.deepcopy(x), shared) for x in c["pieces"]], parse_schema(copy.deepcopy(c["parent"]), shared))[1])
+        pr = outcome(lambda: parse_schema(copy.deepcopy(c["raw"])))
+        if st[0] != "ok" or pr[0] != "ok":
+            ctx.violation("corr:three-forms", cs, impl=dict(piecewise=str(st)[:200], parsed=str(pr)[:200]), model="accepted",
+                          signature="C12:parse_schema:valid-schema-rejected")
+            continue
+        forms = [("raw", copy.deepcopy(c["raw"])), ("parsed", pr[1]), ("piecewise", st[1])]
+        b = io.BytesIO(); fastavro.schemaless_writer(b, c["writer"], c["datum"]); payload = b.getvalue()
+        fo = io.BytesIO(); fastavro.writer(fo, c["writer"], [c["datum"]], sync_marker=SYNC); blob = fo.getvalue()
+        exp = repr(c["expected"])
+        for name, form in forms:
+            r1 = outcome(lambda: repr(fastavro.schemaless_reader(io.BytesIO(payload), c["writer"], form)))
+            r2 = outcome(lambda: repr(list(fastavro.reader(io.BytesIO(blob), reader_schema=form))[0]))
+            for op, r in (("schemaless_reader", r1), ("reader", r2)):
+                got = r[1] if r[0] == "ok" else str(r)
+                if got != exp:
+                    ctx.violation("corr:three-forms", dict(cs, operation=op, form=name), impl=got[:400], model=exp[:400],
+                                  signature="C12:%s:reader-only-default:%s-form-differs-from-spec-value" % (op, name))
+                    break
+
+
 def compare(ctx, name_a, ra, name_b, rb, cs):
     for op in ra:
         if op.startswith("_"):
@@ -421,6 +553,8 @@ def run(ctx):
         if mp != ic:
             ctx.violation("corr:canon-piecewise", cs, impl=ic, model=mp, signature="C12:to_parsing_canonical_form:piecewise:differs-from-model",
                           found_input=False)
+    # ---- schema evolution: reader-only fields whose defaults have named types below the top of their type
+    run_evolve(ctx, random.Random(ctx.seed + 2), 150 if ctx.quick() else 3000)
     ctx.notes["schemas"] = len(schemas)
     ctx.notes["top_kinds"] = kinds
     ctx.notes["splits"] = nsplit
@@ -435,6 +569,31 @@ def run(ctx):
 def replay(ctx, rep):
     from fastavro.schema import parse_schema
     c = rep["case"]
+    if c.get("family") == "reader-only fields with defaults":
+        import ast
+        import fastavro
+        writer, raw = json.loads(c["writer_json"]), json.loads(c["reader_raw_json"])
+        pieces, parent = json.loads(c["pieces_json"]), json.loads(c["reader_parent_json"])
+        datum = ast.literal_eval(c["datum"])
+        shared = {}
+        for x in pieces:
+            parse_schema(copy.deepcopy(x), shared)
+        forms = [("raw", raw), ("parsed", parse_schema(copy.deepcopy(raw))), ("piecewise", parse_schema(copy.deepcopy(parent), shared))]
+        named = {}
+        for x in pieces:
+            named[sg.spec_fullname("", x)[1]] = (x, "")
+        exp = dict(datum)
+        ns = sg.spec_fullname("", parent)[0]
+        for f in parent["fields"][1:]:
+            exp[f["name"]] = default_value(f["type"], f["default"], named, ns)
+        b = io.BytesIO(); fastavro.schemaless_writer(b, writer, datum)
+        ok = True
+        for name, form in forms:
+            got = outcome(lambda: repr(fastavro.schemaless_reader(io.BytesIO(b.getvalue()), writer, form)))
+            good = got == ("ok", repr(exp))
+            print("%-9s %s" % (name, "as specified" if good else "got %s, the defaults denote %r" % (str(got)[:300], exp)))
+            ok = ok and good
+        return ok
     s = json.loads(c["schema_json"])
     if "pieces_json" not in c:
         parsed = parse_schema(copy.deepcopy(s))
